@@ -298,8 +298,22 @@ def run_shell(shell, script, cwd):
     return r.returncode, r.stdout
 
 
-def observed_words(conv, text_out):
+def all_names(j, acc):
+    """every field name anywhere in the evaluated value (a nested field must not become a variable either)"""
+    if j.get('t') == 'tuple':
+        for name, x in j['v']:
+            if name not in acc and name.replace('_', 'a').isalnum() and not name[0].isdigit():
+                acc.append(name)
+            all_names(x, acc)
+    elif j.get('t') == 'list':
+        for x in j['v']:
+            all_names(x, acc)
+    return acc
+
+
+def observed_words(conv, text_out, NAMES=None):
     """what /bin/sh and bash make of the converter output: list of byte strings per shell"""
+    NAMES = NAMES or globals()['NAMES']
     res = {}
     with tempfile.TemporaryDirectory(prefix='ucg-verif-sh-') as d:
         open(os.path.join(d, 'out'), 'wb').write(text_out)
@@ -332,7 +346,7 @@ def make_judge(v):
         out_bytes = bytes(native['out_bytes'])
         conv = v['conv']
         exp = expected_from_val(conv, val)
-        obs = observed_words(conv, out_bytes)
+        obs = observed_words(conv, out_bytes, all_names(val, list(NAMES)))
         v['shell_observed'] = {k: [x.decode('latin-1') for x in o[1]] for k, o in obs.items()}
         v['shell_expected'] = [x.decode('latin-1') for x in exp]
         return any(o[1] != exp for o in obs.values())
